@@ -1,1 +1,126 @@
-From G01 Require Import ReqE2E ReqProofs Ob01.
+(* C01 — property theorems.  Nothing but statements, `exact`, Print Assumptions.
+   modify_request = the request modifier stack as configured by HTTPProxy.middlewareStack without access
+   controls, header rules or credentials, in the order read from the source (Tables.v);
+   handle_request = proxyConn.handle up to roundTrip.  A request is what net/http.ReadRequest hands over.
+   after_removal h = h without the documented hop-by-hop fields and the names its Connection field nominates. *)
+From G01 Require Import ReqE2E ViaProofs ReqProofs Ob18 Ob01.
+
+(* Every end-to-end field reaches the next hop with the same values in the same per-name order. *)
+Theorem T01_end_to_end_preserved : forall tag r r' k,
+  modify_request tag r = Passed r' ->
+  is_removed k (q_hdr r) = false -> mem k doc_keys = false ->
+  raw_get k (q_hdr r') = raw_get k (q_hdr r).
+Proof. exact f01_end_to_end. Qed.
+Print Assumptions T01_end_to_end_preserved.
+
+(* Hop-by-hop fields and every name nominated by Connection are gone
+   (the documented fields Via / X-Forwarded-* / User-Agent / Content-Length have their own clauses). *)
+Theorem T01_hop_by_hop_removed : forall tag r r' k,
+  modify_request tag r = Passed r' ->
+  is_removed k (q_hdr r) = true -> mem k doc_keys = false ->
+  raw_get k (q_hdr r') = None.
+Proof. exact f01_removed. Qed.
+Print Assumptions T01_hop_by_hop_removed.
+
+(* ... Connection / Upgrade come back only when an upgrade is requested, exactly as Connection: Upgrade + Upgrade: t. *)
+Theorem T01_upgrade_readded_only_on_request : forall tag r r',
+  handle_request tag r = Passed r' ->
+  exists r1, modify_request tag (fix_request_scheme proxy_allow_http r) = Passed r1 /\
+  let up := upgrade_type (q_hdr r) in
+  (is_empty up = false -> raw_get k_connection (q_hdr r') = Some [k_upgrade] /\ raw_get k_upgrade (q_hdr r') = Some [up]) /\
+  (is_empty up = true -> raw_get k_connection (q_hdr r') = None /\ raw_get k_upgrade (q_hdr r') = None) /\
+  (forall k, k <> k_connection -> k <> k_upgrade -> raw_get k (q_hdr r') = raw_get k (q_hdr r1)).
+Proof. exact f01_upgrade. Qed.
+Print Assumptions T01_upgrade_readded_only_on_request.
+
+(* One Via element and the client address in X-Forwarded-For are appended to what was received
+   (all field lines, in order); a chain containing this instance's own element is never forwarded. *)
+Theorem T01_via_xff_appended : forall tag r r',
+  tag_ok tag = true -> q_maj r < 10 -> q_min r < 10 -> modify_request tag r = Passed r' ->
+  let h0 := after_removal (q_hdr r) in
+  chain (raw_values via_key (q_hdr r')) = chain (raw_values via_key h0) ++ [elem tag (q_maj r) (q_min r)] /\
+  own_elem tag (raw_values via_key h0) = false /\
+  (str_eqb (q_method r) m_connect = false -> tag_ok (client_ip r) = true ->
+     chain (raw_values k_xff (q_hdr r')) = chain (raw_values k_xff h0) ++ [client_ip r]).
+Proof. exact f01_via_xff. Qed.
+Print Assumptions T01_via_xff_appended.
+
+(* X-Forwarded-Proto / Host / Url are filled in exactly when every received field line of that name is empty. *)
+Theorem T01_forwarded_filled_only_when_absent : forall tag r r',
+  modify_request tag r = Passed r' -> str_eqb (q_method r) m_connect = false ->
+  let h0 := after_removal (q_hdr r) in
+  raw_get k_xfp (q_hdr r') = (if is_empty (concat (raw_values k_xfp h0)) then Some [q_scheme r] else raw_get k_xfp h0) /\
+  raw_get k_xfh (q_hdr r') = (if is_empty (concat (raw_values k_xfh h0)) then Some [q_host r] else raw_get k_xfh h0) /\
+  raw_get k_xfu (q_hdr r') = (if is_empty (concat (raw_values k_xfu h0)) then Some [q_urlstr r] else raw_get k_xfu h0).
+Proof. exact f01_filled. Qed.
+Print Assumptions T01_forwarded_filled_only_when_absent.
+
+(* No User-Agent is invented: the field keeps the client's values, and when the client sent none it is
+   set to the empty value, so that the User-Agent key is never absent when net/http writes the request
+   (an absent key is the only case in which net/http adds its default). *)
+Theorem T01_no_user_agent_invented : forall tag r r',
+  modify_request tag r = Passed r' ->
+  raw_get k_ua (q_hdr r') = (match raw_get k_ua (after_removal (q_hdr r)) with Some vs => Some vs | None => Some [[]] end) /\
+  raw_get k_ua (q_hdr r') <> None.
+Proof. exact (fun tag r r' H => conj (f01_user_agent tag r r' H) (f01_user_agent_never_default tag r r' H)). Qed.
+Print Assumptions T01_no_user_agent_invented.
+
+(* Method, Host, URL, scheme, version and the close flag pass through the stack unchanged. *)
+Theorem T01_method_target_host_identity : forall tag r r',
+  modify_request tag r = Passed r' ->
+  q_method r' = q_method r /\ q_host r' = q_host r /\ q_urlstr r' = q_urlstr r /\ q_scheme r' = q_scheme r /\
+  q_maj r' = q_maj r /\ q_min r' = q_min r /\ q_close r' = q_close r.
+Proof. exact f01_identity. Qed.
+Print Assumptions T01_method_target_host_identity.
+
+(* Body framing (MODELLED Transport layer): the next hop sees the client's framing kind;
+   an empty Content-Length body counts as no body. *)
+Theorem T01_body_framing : forall x t r o,
+  transport_out x t r = Some o -> xi_framing x <= 2 ->
+  xo_framing o = norm_framing (xi_framing x) (xi_blen x).
+Proof. exact body_framing. Qed.
+Print Assumptions T01_body_framing.
+
+(* The k-th request of a keep-alive connection is treated like the first: the pipeline is a function of the
+   current request only (true by construction of the model; that the implementation keeps no state between
+   requests, incl. the bufio reader synchronisation, is tested end to end). *)
+Theorem T01_keepalive_stateless : forall tag (before after : list mreq) r,
+  nth_error (map (handle_request tag) (before ++ r :: after)) (length before) = Some (handle_request tag r).
+Proof. exact keepalive_stateless. Qed.
+Print Assumptions T01_keepalive_stateless.
+
+(* The stack is the written-out composition, in the source's order. *)
+Theorem T01_stack_order : forall tag r, modify_request tag r = pipeline tag r.
+Proof. exact f01_modify_is_pipeline. Qed.
+Print Assumptions T01_stack_order.
+
+(* The shapes the source had before commits 48b84b4 / e49c846 are refuted. *)
+Theorem T01_xff_first_line_only_refuted : exists r,
+  str_eqb (q_method r) m_connect = false /\
+  raw_values k_xff (q_hdr r) = [b "203.0.113.7"; b "198.51.100.1"] /\
+  chain (raw_values k_xff (q_hdr (forwarded_gen2 true false r))) <> chain (raw_values k_xff (q_hdr r)) ++ [b "10.1.2.3"].
+Proof. exact legacy_xff_refuted. Qed.
+Print Assumptions T01_xff_first_line_only_refuted.
+
+Theorem T01_fill_first_line_only_refuted : exists r,
+  str_eqb (q_method r) m_connect = false /\
+  raw_get k_xfp (q_hdr r) = Some [[]; b "https"] /\
+  raw_get k_xfp (q_hdr (forwarded_gen2 false true r)) = Some [b "http"].
+Proof. exact legacy_fill_refuted. Qed.
+Print Assumptions T01_fill_first_line_only_refuted.
+
+(* Non-vacuity: a concrete request through handle_request. *)
+Example T01_example :
+  let tag := mk_tag (b "forwarder") (b "00112233445566778899") in
+  let r := mkq (b "GET") [] (b "example.com") (b "http://example.com/a?b") (b "10.1.2.3:4567") false 1 1 false
+             [(b "X-A", [b "1"; b "2"]); (k_connection, [b "x-b, keep-alive"]); (b "X-B", [b "gone"]);
+              (b "Keep-Alive", [b "timeout=5"]); (k_xff, [b "203.0.113.7"; b "198.51.100.1"]); (via_key, [b "1.0 alpha"])] in
+  match handle_request tag r with
+  | Passed r' =>
+      hmap_eqb (q_hdr r')
+        [(b "X-A", [b "1"; b "2"]); (k_xff, [b "203.0.113.7, 198.51.100.1, 10.1.2.3"]);
+         (via_key, [b "1.0 alpha, 1.1 forwarder-00112233445566778899"]);
+         (k_xfp, [b "http"]); (k_xfh, [b "example.com"]); (k_xfu, [b "http://example.com/a?b"]); (k_ua, [[]])] = true
+  | Refused _ => False
+  end.
+Proof. exact eq_refl. Qed.
